@@ -1,6 +1,7 @@
 package storesim
 
 import (
+	"github.com/google/uuid"
 	"os"
 	"strings"
 	"context"
@@ -38,6 +39,12 @@ type ClusterCase struct {
 	Battery      []*Search    `json:"battery"`
 	PageSizes    []int        `json:"page_sizes"`
 	Schedule     []int        `json:"schedule,omitempty"`
+	// faulty-cluster profiles (clusterf.go): "" = the fault-free layout check of C05/C06
+	Profile      string `json:"profile,omitempty"`
+	ColdShards   int    `json:"cold_shards,omitempty"`
+	ColdReplicas int    `json:"cold_replicas,omitempty"`
+	HotMode      string `json:"hot_mode,omitempty"`       // store mode of the hot tier: hot | cold
+	HotTotalSize uint64 `json:"hot_total_size,omitempty"` // size-based retention of the hot tier (0 = none)
 }
 
 type clusterRunner struct {
@@ -54,6 +61,10 @@ type clusterRunner struct {
 	start  time.Time
 	layouts map[string]bool
 	hasDups bool // some document is present on more than one shard
+	// faulty-cluster profiles
+	maybe    map[model.ID]*model.Doc // documents of bulks that were not acknowledged
+	asyncIDs map[string]string       // case-level id -> id the proxy generated
+	nHot     int                     // stores[:nHot] are the hot tier
 }
 
 func (r *clusterRunner) logf(f string, a ...any) {
@@ -123,8 +134,23 @@ func RunCluster(t *testing.T, c *ClusterCase, done func(*Result)) {
 	verifsim.RunBubble(t, cfg, func(s *verifsim.Sim) {
 		r.s = s
 		r.start = time.Now()
-		r.script()
+		// the proxy names asynchronous searches with random UUIDs: seeded like everything else
+		uuid.SetRand(&seededReader{r: verifsim.NewSplitMix(c.Seed ^ 0x75756964)})
+		if c.Profile != "" {
+			r.scriptF()
+		} else {
+			r.script()
+		}
 	})
+}
+
+type seededReader struct{ r *verifsim.SplitMix }
+
+func (s *seededReader) Read(p []byte) (int, error) {
+	for i := range p {
+		p[i] = byte(s.r.Uint64())
+	}
+	return len(p), nil
 }
 
 func (r *clusterRunner) script() {
